@@ -20,6 +20,7 @@ Sub-checks / keys (m = model, s = supply mode):
                                closed-form log-likelihood at the reference distances
   C05:fixed_param:<m>          kwargs_fixed_cosmo value is the one used
   C05:degenerate:finite_positive   inverted / equal redshifts, extreme parameters: Ddt, Dd >= 1e-5 finite, modulus finite
+  C05:anchor_above_zmax        z_apparent_m_anchor above every source redshift: interpolated modes still deliver the modulus
   C05:tabulated_flat_without_K user-tabulated distances for a flat model without the optional 'K' key
 """
 import sys, os, json, time, traceback
@@ -158,6 +159,7 @@ def gen_case(case):
         zl = rng.uniform(0.1, 1.0); zs = zl + rng.uniform(0.2, 2.0)
     zs2 = zs + rng.uniform(0.05, 1.5)
     za = float(rng.choice([0.1, 0.1, 0.05, 0.3, float(rng.uniform(0.02, min(zs, 1.0)))]))
+    za = float(min(za, 0.9 * zs))   # anchor inside the tabulated range; the other situation is run_anchor_above_zmax
     fixed_key = None
     if rng.random() < 0.25:
         fixed_key = str(rng.choice({"FLCDM": ["h0", "om"], "FwCDM": ["h0", "om", "w"], "w0waCDM": ["om", "w0", "wa"],
@@ -246,6 +248,13 @@ def run_case(rec, inp):
     model, p = inp["model"], inp["params"]
     zl, zs, zs2, za = inp["z_lens"], inp["z_source"], inp["z_source2"], inp["z_anchor"]
     mu_sne = inp["data"]["mu_sne"]
+    if p["ok"] < 0:
+        # closed model: beyond x = sqrt|ok| D_C/D_H = pi/2 the transverse distance is no longer monotonic (a D_A table
+        # cannot be inverted to D_C) and towards pi the source approaches the antipode -- not a meaningful lens geometry
+        x = np.sqrt(-p["ok"]) * DC(0, zs2, p) / (C_KMS / p["h0"])
+        if x > 1.4:
+            rec.tally("skipped_closed_beyond_pi/2")
+            return
     ref = ref_quantities(p, zl, zs, zs2, za)
     lenses = lens_list(inp, ref)
     args = args_of(model, p) + [mu_sne]
@@ -375,6 +384,43 @@ def run_case(rec, inp):
             rec.violation("C05:raises:exact", "hierArc raised with kwargs_fixed_cosmo: %r" % (e,), dict(short, fixed={fk: val}))
 
 
+# ------------------------------------------------------------------ anchor redshift above every source redshift
+def gen_anchor(case):
+    rng = np.random.default_rng([int(c) for c in case])
+    model = MODELS[int(case[2]) % 4]
+    p = model_params(model, rng, False)
+    zl = float(rng.uniform(0.01, 0.04)); zs = float(zl + rng.uniform(0.01, 0.04))
+    return dict(case=[int(c) for c in case], model=model, params=p, z_lens=zl, z_source=zs,
+                z_anchor=float(rng.choice([0.1, 0.3])), num_interp=int(rng.choice([50, 100])),
+                fixed=bool(rng.random() < 0.5))
+
+
+def run_anchor(rec, inp):
+    """Sample whose sources all lie below z_apparent_m_anchor: the interpolated modes must still deliver the modulus
+    difference (negative here) that the exact mode delivers."""
+    model, p = inp["model"], inp["params"]
+    zl, zs, za = inp["z_lens"], inp["z_source"], inp["z_anchor"]
+    rec.case(dict(anchor_above=True, model=model, params=p, z=[zl, zs, za]), kind="anchor_above_zmax")
+    lens = dict(z_lens=zl, z_source=zs, likelihood_type="Mag", amp_measured=np.array([3.0, 2.0]),
+                cov_amp_measured=np.eye(2), magnification_model=np.array([5., 4.]), cov_magnification_model=np.eye(2) * .1)
+    ref = 5 * np.log10((1 + zs) ** 2 * DA(0, zs, p)) - 5 * np.log10((1 + za) ** 2 * DA(0, za, p))
+    km = dict(sne_apparent_m_sampling=True, sne_distribution="NONE", z_apparent_m_anchor=za)
+    try:
+        cl = CosmoLikelihood([lens], model, km, BOUNDS, interpolate_cosmo=True, num_redshift_interp=inp["num_interp"],
+                             cosmo_fixed=astropy_of(model, p) if inp["fixed"] else None)
+        args = args_of(model, p) + [19.0]
+        cosmo = cl.cosmo_instance(cl.param.args2kwargs(args)[0])
+        mod = fscalar(cl._likelihoodLensSample._lens_list[0].luminosity_distance_modulus(cosmo, za))
+        v = fscalar(cl.likelihood(args))
+        # the table must reach the anchor: grid 0..max(z_source, z_anchor); same linear-interpolation bound as above
+        tol = interp_bounds(p, np.linspace(0, max(zs, za), inp["num_interp"] + 1), zl, zs, zs, za)["modulus"]
+        rec.check(abs(mod - ref) <= tol and np.isfinite(v), "C05:anchor_above_zmax",
+                  "modulus difference wrong when the anchor redshift exceeds all source redshifts", inp, mod, ref)
+    except Exception as e:
+        rec.violation("C05:anchor_above_zmax", "interpolated supply mode raises when z_apparent_m_anchor > every source "
+                      "redshift: %r" % (e,), inp, repr(e), ref)
+
+
 # ------------------------------------------------------------------ degenerate stream
 def gen_degenerate(case):
     rng = np.random.default_rng([int(c) for c in case])
@@ -409,6 +455,11 @@ def run_degenerate(rec, inp):
         rec.check(bool(good), "C05:degenerate:finite_positive", "Ddt/Dd below the floor or not finite on a degenerate input",
                   inp, dict(ddt=ddt, dd=dd, modulus=mod), "finite, >= 1e-5")
     except Exception as e:
+        if inp["kind"] == "inverted" and inp["interp"] and isinstance(e, ValueError) and "interpolation range" in str(e):
+            # z_lens > z_source is not a lens; the interpolated table ends at z_source and scipy refuses to
+            # extrapolate with a clear ValueError -- not a silent wrong distance, so not a violation of C05.
+            rec.tally("inverted_interp_out_of_table_ValueError")
+            return
         rec.violation("C05:degenerate:finite_positive", "hierArc raised on a degenerate input: %r" % (e,), inp,
                       traceback.format_exc(limit=3), "finite positive distances")
 
@@ -423,14 +474,16 @@ def main():
         try:
             if int(case[1]) == 2:
                 run_degenerate(rec, gen_degenerate(case))
+            elif int(case[1]) == 3:
+                run_anchor(rec, gen_anchor(case))
             else:
                 run_case(rec, gen_case(case))
         except Exception:
             rec.error(traceback.format_exc(limit=6))
         rec.write(a.out)
         return
-    n_main = 36 if a.tier == "quick" else 400
-    n_deg = 20 if a.tier == "quick" else 200
+    n_main = 160 if a.tier == "quick" else 2000
+    n_deg = 40 if a.tier == "quick" else 400
     budget = 30 if a.tier == "quick" else 300
     for i in range(n_main):
         if time.time() - rec.t0 > budget:
@@ -445,6 +498,11 @@ def main():
             run_degenerate(rec, gen_degenerate([a.seed, 2, i]))
         except Exception:
             rec.error("degenerate %s: %s" % ([a.seed, 2, i], traceback.format_exc(limit=6)))
+    for i in range(4 if a.tier == "quick" else 24):
+        try:
+            run_anchor(rec, gen_anchor([a.seed, 3, i]))
+        except Exception:
+            rec.error("anchor %s: %s" % ([a.seed, 3, i], traceback.format_exc(limit=6)))
     out = rec.write(a.out)
     print(json.dumps(dict(property=PROP, evaluations=out["evaluations"], violations=out["violation_counts"],
                           errors=len(out["errors"]), wall_s=out["wall_s"])))
